@@ -42,8 +42,8 @@ def make_jobs(chk):
         prefixes = list(range(0, min(nops, 14) + 1))
         for k in prefixes:
             lists = [[t] for t in toks] if (k % 3 == 0 or not quick) else [[t] for t in rng.sample(toks, 25)]
-            lists += [[rng.choice(toks), rng.choice(toks)] for _ in range(8 if quick else 100)]
-            lists += [[rng.choice(toks[:150]) for _ in range(rng.choice([3, 5, 12]))] for _ in range(4 if quick else 40)]
+            lists += [[rng.choice(toks), rng.choice(toks)] for _ in range(8 if quick else 400)]
+            lists += [[rng.choice(toks[:150]) for _ in range(rng.choice([3, 5, 12]))] for _ in range(4 if quick else 200)]
             if quick:
                 lists = rng.sample(lists, min(len(lists), 60))
             # several execs per session keep the number of sessions down: exec, then (if it did not fail) another one, then run to the end
